@@ -27,6 +27,7 @@ RULE = (
     "arguments the returned type and the set of fired error ids equal the reference; for union arguments they "
     "equal the union over the members evaluated separately. Non-trivial = body with >=2 conditions of which the "
     "call makes one true and one false, or a union argument that splits (distinct by evaluator+call)."
+    ' sys.version_info conditions use all six operators against tuples of length 1, 2, 3 and 5 around the running interpreter; sys.platform ==/!= against the real and another name.'
 )
 ASSUMPTIONS = [
     "`is_of_type(arg, T)` for a non-union, non-Any argument type A is decided as A <= T on witnesses (pv/member.py)",
